@@ -201,7 +201,7 @@ fn w<S: AsRef<[u8]>>(s: S) -> Vec<u8> {
 
 fn gen_lang(r: &mut Rng) -> Vec<u8> {
     if r.chance(2, 3) {
-        w(r.pick(&["en", "fr", "und", "zh", "sr", "ar", "de", "abc", "abcde", "abcdefgh", "he", "uz", "az", "ku", "mul", "mis", "zxx", "yue", "mn", "pa", "ms", "ha", "eo"]))
+        w(r.pick(&["en", "fr", "und", "zh", "sr", "ar", "de", "abc", "abcde", "abcdefgh", "he", "uz", "az", "ku", "mul", "mis", "zxx", "yue", "mn", "pa", "ms", "ha", "eo", "iw", "in", "ji", "jw", "mo", "sh", "tl", "no"]))
     } else if r.chance(1, 2) {
         rand_word(r, ALPHA, 2, 3)
     } else {
@@ -217,7 +217,7 @@ fn gen_script(r: &mut Rng) -> Vec<u8> {
 }
 fn gen_region(r: &mut Rng) -> Vec<u8> {
     if r.chance(2, 3) {
-        w(r.pick(&["US", "GB", "419", "001", "RS", "AF", "CN", "ZZ", "XX", "AA", "QO", "EU", "999", "000", "150", "TW", "MN", "EG", "ME"]))
+        w(r.pick(&["US", "GB", "419", "001", "RS", "AF", "CN", "ZZ", "XX", "AA", "QO", "EU", "999", "000", "150", "TW", "MN", "EG", "ME", "BU", "DD", "YU", "ZR", "UK", "SU"]))
     } else if r.chance(1, 2) {
         rand_word(r, ALPHA, 2, 2)
     } else {
